@@ -377,7 +377,7 @@ def odd_value_pairs(ctx, root):
     def key_of(v):
         try:
             return Config(root / 'oddd', name='c', data={'tasks': [cls], 'v': v}).chain().tasks['o'].name_for_persistence
-        except (UnicodeEncodeError, ValueError, TypeError) as e:
+        except (UnicodeEncodeError, ValueError, TypeError, AttributeError) as e:
             return ('refused', type(e).__name__)
     pairs = [(_os.fsdecode(b'caf\xe9.csv'), _os.fsdecode(b'caf\xf1.csv')), ('a\udc80b', 'a?b'), (['x', '\udcff'], ['x', '\udcfe']),
              ({'k': 'p\udc80'}, {'k': 'p\ufffd'})]
@@ -422,6 +422,40 @@ def odd_value_pairs(ctx, root):
     if len(set(ks.values())) < len(bigs):
         ctx.fail('two different parameter values got the same storage key', {'probe': 'integers beyond 64 bits in a JSON config file'}, ks)
     pb.cleanup_module()
+    # (v) parameter objects whose class hands keyword arguments on to its parent without keeping them under their own names: refused
+    #      (the text cannot be derived) or distinct — never one key for two of them; (vi) a subclass used after its parent class was
+    from taskchain.parameter import AutoParameterObject
+
+    def classes():
+        class Base(AutoParameterObject):
+            def __init__(self, scale=1):
+                self.scale = scale
+
+        class PassOn(Base):
+            def __init__(self, a, **kwargs):
+                super().__init__(**kwargs)
+                self.a = a
+
+        class Extended(Base):
+            def __init__(self, scale=1, extra=0):
+                super().__init__(scale)
+                self.extra = extra
+        return Base, PassOn, Extended
+    Base, PassOn, Extended = classes()
+    case = {'probe': 'keyword arguments handed on to the parent class', 'objects': ['PassOn(1, scale=2)', 'PassOn(1, scale=3)']}
+    ctx.case(case); ctx.count('odd-values:kwargs-handed-on')
+    ka, kb = key_of(PassOn(1, scale=2)), key_of(PassOn(1, scale=3))
+    if isinstance(ka, str) and ka == kb:
+        ctx.fail('two different parameter values got the same storage key', case, {'key': ka})
+    for first in ('subclass first', 'parent first'):
+        Base, PassOn, Extended = classes()
+        case = {'probe': 'subclass of a parameter-object class', 'order': first, 'objects': ['Extended(1, extra=2)', 'Extended(1, extra=3)']}
+        ctx.case(case); ctx.count('odd-values:subclass-after-parent')
+        if first == 'parent first':
+            _ = key_of(Base(5))
+        ka, kb = key_of(Extended(1, extra=2)), key_of(Extended(1, extra=3))
+        if isinstance(ka, str) and ka == kb:
+            ctx.fail('two different parameter values got the same storage key', case, {'key': ka})
     for k in range(ctx.n(4, 20)):
         case = {'probe': 'plain objects with different state', 'states': [k, k + 1]}
         ctx.case(case); ctx.count('odd-values:plain-objects')
